@@ -580,6 +580,9 @@ def int_of_str(interp, s):
 def join_slist(interp, sep, xs):
     """sep.join(xs) for a sequence of symbolic length.
 
+    If the calling function has a loop spec 'join#k' for this join (M.loop(qname, 'join#k', ...)), the join is
+    interpreted from the Python model pyvc/pymodels/str_model.py with that invariant (loops.join_slist).  Otherwise:
+
     The sequence is taken in its structural normal form (pieces: single elements and base
     sequences, see seqs.parts_of).  The join of a *base* sequence b is an uninterpreted string
     J(sep, b) -- a function of the (immutable) sequence, named by its uid -- about which only
@@ -587,8 +590,11 @@ def join_slist(interp, sep, xs):
     composed from the joins of its pieces by the law
         join(x ++ y) = join(y) if x is empty, join(x) if y is empty, else join(x) + sep + join(y)
     which holds of Python's str.join for every x, y."""
-    from . import seqs, models
+    from . import seqs, models, loops
     from .interp import PyRaise
+    r = loops.join_slist(interp, sep, xs)
+    if r is not NotImplemented:
+        return r
     st = interp.st
     if not isinstance(sep, str):
         raise Unsupported('str.join over symbolic-length sequence with symbolic separator')
